@@ -321,10 +321,21 @@ static Cfg chan_cfg(int variant, bool fifo)
 			c.prog[0] = {Ev{'S', 1, 1, 0}, Ev{'B', 1101, 0, 0}, Ev{'U', 0, 0, 0}, Ev{'S', 2, 1, 0}, Ev{'B', 1201, 0, 0}, Ev{'U', 0, 0, 0}};
 			c.prog[1] = {Ev{'S', 1, 1, 0}, Ev{'U', 0, 0, 0}, Ev{'S', 2, 1, 0}, Ev{'U', 0, 0, 0}};
 			break;
+		case 5: // leave and recover the inner channel TWICE: the record saved by unsetID must be refreshed at every leave
+			c.prog[0] = {Ev{'S', 1, 1, 0}, Ev{'B', 1101, 0, 0}, Ev{'U', 0, 0, 0}, Ev{'R', 1, 1, 0}, Ev{'B', 1102, 0, 0}, Ev{'U', 0, 0, 0},
+			             Ev{'R', 1, 1, 0}, Ev{'B', 1103, 0, 0}, Ev{'U', 0, 0, 0}};
+			c.prog[1] = {Ev{'S', 1, 1, 0}, Ev{'U', 0, 0, 0}, Ev{'R', 1, 1, 0}, Ev{'U', 0, 0, 0}, Ev{'R', 1, 1, 0}, Ev{'U', 0, 0, 0}};
+			break;
+		case 6: // two recover cycles, the other party is the sender in the later visits, a base-channel broadcast in between
+			c.prog[0] = {Ev{'S', 1, 1, 0}, Ev{'B', 1101, 0, 0}, Ev{'U', 0, 0, 0}, Ev{'B', 1001, 0, 0}, Ev{'R', 1, 1, 0}, Ev{'U', 0, 0, 0},
+			             Ev{'R', 1, 1, 0}, Ev{'U', 0, 0, 0}};
+			c.prog[1] = {Ev{'S', 1, 1, 0}, Ev{'U', 0, 0, 0}, Ev{'R', 1, 1, 0}, Ev{'B', 2101, 0, 0}, Ev{'U', 0, 0, 0},
+			             Ev{'R', 1, 1, 0}, Ev{'B', 2102, 0, 0}, Ev{'U', 0, 0, 0}};
+			break;
 	}
 	return c;
 }
-static const int NCHAN = 5;
+static const int NCHAN = 7;
 
 // DeliverFrom programs (n=3,t=0): 'W i' = wait for the next value of sender i
 static Cfg from_cfg(int variant)
@@ -443,6 +454,13 @@ static void build_cells(bool thorough)
 	for (int v = 0; v < NCHAN; v++)
 		for (int f = 1; f >= (thorough ? 0 : 1); f--)
 		{
+			if (v >= 5)
+			{	// long programs (two leave/recover cycles): deviation-bounded instead of the full BFS
+				int bound = thorough ? 5 : 3;
+				std::string id = "chan:variant=" + str(v) + ",fifo=" + str(f) + ",d<=" + str(bound);
+				cells.push_back(Cell{id, [=]() { Cfg c = chan_cfg(v, f != 0); return dfs(c, id, bound, {}, std::make_pair(-1, -1), {}); }});
+				continue;
+			}
 			std::string id = "chan:variant=" + str(v) + ",fifo=" + str(f);
 			cells.push_back(Cell{id, [=]() { Cfg c = chan_cfg(v, f != 0); return bfs(c, id, 3000000, 10000); }});
 		}
